@@ -168,3 +168,12 @@ func (p *TLSPeer) Close() {
 
 // State returns the connection state (valid after a successful handshake).
 func (p *TLSPeer) State() tls.ConnectionState { return p.T.ConnectionState() }
+
+// CloseWrite sends close_notify (the TLS half-close).
+func (p *TLSPeer) CloseWrite() { p.T.CloseWrite(); synctest.Wait() }
+
+// SawEOF reports whether the peer's close_notify / FIN was read after all data.
+func (p *TLSPeer) SawEOF() bool { return p.ReadErr() != nil }
+
+// PeerReleased reports whether the other side released the underlying connection.
+func (p *TLSPeer) PeerReleased() bool { return p.Raw.C.Status().PeerClosed }
